@@ -17,6 +17,7 @@ NOT provable here: stack exhaustion, allocator failure, the internals of `core`/
 import TzVerif.Generated.Sites
 import TzVerif.Proofs.NoPanic
 import TzVerif.Proofs.SrcEqZone
+import TzVerif.Generated.StableC07   -- per run: the current translation (SrcNow) equals the baseline (Src) these theorems are about
 
 namespace TzVerif.C07
 open TzVerif.Model TzVerif.Gen TzVerif.Proofs
